@@ -1,2 +1,3 @@
 pub mod text;
 pub mod edit;
+pub mod matchw;
